@@ -436,10 +436,12 @@ def vhdx_late_chunk(ctx, rng, thorough):
 
 
 # ---------------------------------------------------------------- direction B: random chains at real geometry
-def trace_vhdx_chain(tid, rng, nops):
+def trace_vhdx_chain(tid, rng, nops, align=None):
     from dissect.hypervisor.disk.vhdx import VHDX
 
     sector = rng.choice([512, 512, 4096])
+    if align and align % 4096:
+        sector = 512  # the buffer size must be a multiple of the logical sector size
     bs = 1 << 20
     spb = bs // sector
     nb = rng.randrange(1, 4)
@@ -490,7 +492,7 @@ def trace_vhdx_chain(tid, rng, nops):
         s = VHDX(Path(top))
         fresh = VHDX(Path(top))
         size_b = nb * bs
-        rec = record.Recorder(s, size_b, probe=fresh.readoffset)
+        rec = record.Recorder(s, size_b, probe=fresh.readoffset, align=align)
         for _ in range(nops):
             b = rng.randrange(nb)
             r = rng.random()
@@ -512,7 +514,7 @@ def trace_vhdx_chain(tid, rng, nops):
         shutil.rmtree(work, ignore_errors=True)
 
 
-def trace_qcow2_chain(tid, rng, nops):
+def trace_qcow2_chain(tid, rng, nops, align=None):
     from dissect.hypervisor.disk.qcow2 import QCow2
 
     cb = rng.choice([14, 16])
@@ -563,13 +565,13 @@ def trace_qcow2_chain(tid, rng, nops):
 
     size_b = nc * cs
     s, fresh = opener(), opener()
-    rec = record.Recorder(s, size_b, probe=fresh.readoffset)
+    rec = record.Recorder(s, size_b, probe=fresh.readoffset, align=align)
     record.random_ops(rec, rng, size_b, nops, unit=cs // 32, big=min(3 * cs, 1 << 20))
     geo = {"cellB": cs // 32, "cb": 1, "stride": cs // 32, "bases": bases, "pbase": 0}
     return {"tid": tid, "fmt": "chain", "kind": "qcow2", "chain": layers, "sizeB": size_b, "sector": 512, "geo": geo, "events": rec.events}
 
 
-def trace_vdi_chain(tid, rng, nops):
+def trace_vdi_chain(tid, rng, nops, align=None):
     from dissect.hypervisor.disk.vdi import VDI
 
     bs = rng.choice([4096, 65536, 1 << 20])
@@ -594,7 +596,7 @@ def trace_vdi_chain(tid, rng, nops):
 
     size_b = n * bs
     s, fresh = opener(), opener()
-    rec = record.Recorder(s, size_b, probe=fresh.readoffset)
+    rec = record.Recorder(s, size_b, probe=fresh.readoffset, align=align)
     record.random_ops(rec, rng, size_b, nops, unit=bs, big=min(3 * bs + 4096, 4 << 20))
     geo = {"cellB": bs, "cb": 1, "stride": bs, "bases": bases, "pbase": 0}
     return {"tid": tid, "fmt": "chain", "kind": "vdi", "chain": layers, "sizeB": size_b, "sector": 512, "geo": geo, "events": rec.events}
